@@ -294,18 +294,40 @@ func R4QueueShape(c *Ctx) {
 			enq = true
 		}
 	})
+	// values that end up boxed into a job's argument list: directly, or as arguments of a same-package helper
+	// that boxes the corresponding parameter (the chunk job may be built by an extracted constructor)
+	boxed := func(v ssa.Value) {
+		if idVal != nil && v == idVal {
+			idOK = true
+		}
+		if cv, ok := v.(*ssa.Convert); ok {
+			if arg, ok := isLenCall(cv.X); ok && IsParam(arg, up.Params[1]) {
+				sizeOK = true
+			}
+		}
+	}
+	EachCall(up, func(call ssa.CallInstruction) {
+		h := call.Common().StaticCallee()
+		if h == nil || h.Blocks == nil || FuncPkgPathOf(h) != PkgAgent || h == up {
+			return
+		}
+		for i, prm := range h.Params {
+			isBoxed := false
+			for _, r := range *prm.Referrers() {
+				if _, ok := r.(*ssa.MakeInterface); ok {
+					isBoxed = true
+				}
+			}
+			if isBoxed && i < len(call.Common().Args) {
+				boxed(call.Common().Args[i])
+			}
+		}
+	})
 	for _, b := range up.Blocks {
 		for _, in := range b.Instrs {
 			switch x := in.(type) {
 			case *ssa.MakeInterface:
-				if idVal != nil && x.X == idVal {
-					idOK = true
-				}
-				if cv, ok := x.X.(*ssa.Convert); ok {
-					if arg, ok := isLenCall(cv.X); ok && IsParam(arg, up.Params[1]) {
-						sizeOK = true
-					}
-				}
+				boxed(x.X)
 			case *ssa.Return:
 				if len(x.Results) == 1 && idVal != nil && x.Results[0] == idVal {
 					ret = true
